@@ -404,6 +404,11 @@ S(id="UB.uninit.trees", props=["C12"], spec="native/cost_enum.c", mode="N", sani
   bound="the ambiguous cost families of P.cost.native with costs 0..1 (thorough 0..2), the library built with MemorySanitizer",
   functions=["yaep_parse", "make_parse", "find_minimal_translation", "yaep_free_tree"],
   what="no use of uninitialised memory while ambiguous DAGs are built, pruned by cost, walked and freed")
+S(id="UB.uninit.pair", props=["C12"], spec="native/pair_enum.c", mode="N", sanitize="memory", link=["allocate.c", "hashtab.c", "objstack.c", "vlobject.c", "yaep.c"], harness="main", timeout=3000,
+  params={"quick": {"NSYM": 3, "INLEN": 2, "PAIR_ALTS": 1}, "thorough": {"NSYM": 3, "INLEN": 2, "PAIR_ALTS": 2}},
+  bound="the description families of T.pair.native (incl. the ambiguous cost family), the library built with MemorySanitizer",
+  functions=["yaep_parse_grammar", "yaep_parse", "make_parse", "find_minimal_translation", "yaep_free_tree", "yaep_free_grammar"],
+  what="no use of uninitialised memory from the description text to the freed tree, with the caller's tracking allocator, one / all parses, with / without cost flag")
 S(id="G.history.native", props=["C14", "C15"], spec="native/history_enum.c", mode="N", link=["allocate.c", "hashtab.c", "objstack.c", "vlobject.c", "yaep.c"], harness="main",
   params={"quick": {"LEN": 5}, "thorough": {"LEN": 6}}, timeout=3000,
   bound="every applicable history of <= 5 (thorough 6) operations over two objects; 12 operations (create, 3 definitions, 2 lookahead settings, cost flag, all parses, 3 parses, free)",
